@@ -171,12 +171,13 @@ def check_case(case):
         else:
             key = f"body-differs/{suffix}"
         out.append((key, f"{data!r}: body {body!r}, expected {wb!r}"))
-    try:
-        h2, body2 = OFXTree._read(io.BytesIO(data))
-        if body2 != body or type(h2) is not type(h):
-            out.append(("OFXTree-read-disagrees", f"{data!r}"))
-    except Exception as e:
-        out.append(("OFXTree-read-raises", f"{data!r}: {e!r}"))
+    if hasattr(OFXTree, "_read"):  # the file-reading step of OFXTree.parse, where it exists as a separate helper
+        try:
+            h2, body2 = OFXTree._read(io.BytesIO(data))
+            if body2 != body or type(h2) is not type(h):
+                out.append(("OFXTree-read-disagrees", f"{data!r}"))
+        except Exception as e:
+            out.append(("OFXTree-read-raises", f"{data!r}: {e!r}"))
     return out
 
 
